@@ -141,6 +141,24 @@ INFO = {
  ('7','C13','m2'): ("the replay loop returns early for a dead subscriber and skips the final clean-up: the first subscriber of replay() ends (take_until fired by the synchronous source itself) while it is still being registered, history non-empty", []),
  ('7','C14','m1'): ("tap's error hook is consumed by the first subscription that fails (call_and_clear): the same tap observable subscribed again and failing again", []),
  ('7','C14','m2'): ("amb keeps the winner of the race across subscriptions (cell created in execute): second subscription in which a different source fires first", []),
+ ('8','C01','m1'): ("the error callback no longer consults the shared terminal flag: complete, then error on the same observer (subscriber directly on the source)", ['C19']),
+ ('8','C01','m2'): ("the item path reads the terminal flag destructively: terminal, then an item (dropped, but it resets the flag), then one more event", ['C19']),
+ ('8','C06','m1'): ("contains delivers its verdict before it tears the source down: the subscriber's callback emits into the source from inside the verdict's delivery", []),
+ ('8','C06','m2'): ("sequence_equal skips the abort when the verdict comes from an end marker: sources of different length, the longer one hot or unbounded", ['C17']),
+ ('8','C07','m1'): ("switch_on_next keeps a read guard of its flag across the downstream call: a callback re-enters (emits into the target on the same thread, or into the source while another thread is queued in the target's write)", []),
+ ('8','C07','m2'): ("dematerialize completes downstream before it aborts upstream: a Complete item from a source that keeps going until it is unsubscribed", ['C06']),
+ ('8','C11','m1'): ("zip force-completes when a finishing input's own queue is empty: the last tuple is popped and still being delivered by another thread", []),
+ ('8','C11','m2'): ("take completes at once on an over-limit item, ignoring the in-flight counter: an accepted item is still inside sink_next when another thread brings an item beyond the limit", []),
+ ('8','C15','m1'): ("timeout's watchdog loses its take(1): a timer overwritten in the slot without being unsubscribed (two producer threads inside timeout at once, or a re-entrant emission) ticks for ever", []),
+ ('8','C15','m2'): ("skip_until forgets its fired trigger instead of unsubscribing it: a trigger that owns a thread (interval, observe_on) and goes on after it fired", []),
+ ('8','C16','m1'): ("delay skips the sleep when dur.as_millis() == 0: any delay below one millisecond", []),
+ ('8','C16','m2'): ("timeout keeps the previous timer armed while the successor is delivered: a slow consumer of item k while the timer of item k-1 is pending", []),
+ ('8','C17','m1'): ("finalize keeps the on_finalize slot and stop() keeps its queue: the same two-site change as C17-m1 (duplicate)", []),
+ ('8','C17','m2'): ("sequence_equal aborts its upstream only after sink_complete has dropped the registration: a false verdict before hot sources end", ['C06']),
+ ('8','C18','m1'): ("poll has a fast path on err and no longer looks at err once done is set: the failure's two writes land between the two reads of one poll", []),
+ ('8','C18','m2'): ("the error callback keeps the err write guard (if-let temporary) while it takes the waker lock: a poll racing the failure", []),
+ ('8','C19','m1'): ("the error path sets the terminal flag but no longer arbitrates on it: a completion accepted first, then an error already past the liveness check", ['C01']),
+ ('8','C19','m2'): ("fn_next no longer reads the terminal flag and Subject::complete notifies before it clears its map: next on another thread while the subject is still telling the second subscriber", ['C01', 'C12']),
  ('3','C14','m2'): ("amb's winner cell hoisted out of the per-subscription closure: a second subscription in which a source in a different position signals first", []),
 }
 
